@@ -332,6 +332,66 @@ theorem visitNodes_bk (ctx : Ctx) (hnf : ctx.isFunction = false) (vg : St → Gr
               rw [hcnt] at this
               omega
 
+/-! ### the result is a sub-list of the input nodes (generic-folding fragment) -/
+
+theorem visitNodes_sublist (ctx : Ctx) (hnf : ctx.isFunction = false) (vg : St → Graph → St × Graph) :
+    ∀ (f : Nat) (todo : List Node) (st : St) (acc : List Node) (ai : List (Name × String)),
+      (∀ n ∈ todo, Plain n) → st.sym = [] →
+      ∃ new, (visitNodes ctx vg f st todo acc ai).2.1 = acc.reverse ++ new ∧ List.Sublist new todo := by
+  intro f
+  induction f with
+  | zero =>
+    intro todo st acc ai _ _
+    exact ⟨todo, by simp [visitNodes], List.Sublist.refl _⟩
+  | succ f ih =>
+    intro todo st acc ai hplain hsym
+    cases todo with
+    | nil => exact ⟨[], by simp [visitNodes], List.Sublist.refl _⟩
+    | cons n rest =>
+      have hpn := hplain n List.mem_cons_self
+      have hprest : ∀ m ∈ rest, Plain m := fun m hm => hplain m (List.mem_cons_of_mem _ hm)
+      have stuck : ∀ (s : St), ∃ new, ((s, acc.reverse ++ n :: rest, ai) : St × List Node × List (Name × String)).2.1 = acc.reverse ++ new ∧
+          List.Sublist new (n :: rest) := fun s => ⟨n :: rest, rfl, List.Sublist.refl _⟩
+      have keepCase : ∀ (st' : St), SameIS st st' →
+          ∃ new, (visitNodes ctx vg f st' rest (n :: acc) ai).2.1 = acc.reverse ++ new ∧ List.Sublist new (n :: rest) := by
+        intro st' his
+        obtain ⟨newr, h1, h2⟩ := ih rest st' (n :: acc) ai hprest (his.2.trans hsym)
+        exact ⟨n :: newr, by rw [h1]; simp, List.Sublist.cons_cons n h2⟩
+      simp only [visitNodes]
+      split
+      · exact stuck st
+      · rw [processNode_plain ctx st n hpn hsym]
+        cases himp : lookupA ctx.imports n.domain with
+        | none =>
+          simp only [hpn.1, visitSubs, setSubs_nil n hpn.1]
+          exact keepCase _ ⟨rfl, rfl⟩
+        | some v =>
+          simp only []
+          rcases gateCascade_cases ctx hnf st n v with ⟨st', hg, hs⟩ | ⟨m, st', hg⟩ | ⟨c, st2, st3, o, hs2, hora, ho, hsubs, hnc, hins, hg, hsym3, hinfo3⟩
+          · rw [hg]
+            simp only [hpn.1, visitSubs, setSubs_nil n hpn.1]
+            exact keepCase st' hs
+          · rw [hg]
+            exact stuck _
+          · rw [hg]
+            obtain ⟨st4, happ, hs4, l, hst4⟩ := applyRepl_fold ctx hnf st3 n o (freshOf st2) c.tok ho
+            simp only [happ, List.nil_append]
+            have hfold := inheritInfo_fold st2 st3 o (freshOf st2) c hinfo3
+            have hsym4 : st4.sym = [] := by
+              rw [hs4.2, hfold.1, hsym3, hs2.2, hsym]; rfl
+            obtain ⟨newr, h1, h2⟩ := ih rest st4 acc (ai ++ [(o, c.tok)]) hprest hsym4
+            exact ⟨newr, h1, List.Sublist.cons n h2⟩
+
+theorem orderOK_sublist : ∀ {l l' : List Node}, List.Sublist l' l → orderOK l = true → orderOK l' = true := by
+  intro l l' h
+  induction h with
+  | slnil => intro _; rfl
+  | cons a _ ih => intro ho; exact ih (orderOK_tail ho)
+  | cons_cons a hsub ih =>
+    intro ho
+    simp only [orderOK, Bool.and_eq_true, List.all_eq_true] at ho ⊢
+    exact ⟨fun m hm => ho.1 m (hsub.subset hm), ih ho.2⟩
+
 /-! ### dropping unmentioned initializers -/
 
 /-- the two environments agree outside `R` -/
@@ -692,6 +752,19 @@ theorem no_dangling_aux (k : Nat) (ctx : Ctx) (hnf : ctx.isFunction = false) (in
       apply List.count_pos_iff.mpr
       exact List.mem_flatMap.mpr ⟨n, hn, by simpa using hc⟩
     omega
+
+/-- the nodes of the result are a sub-list of the input's nodes, in order (fragment; unconditional) -/
+theorem result_nodes_sublist (k : Nat) (ctx : Ctx) (hnf : ctx.isFunction = false) (info : List (Name × VInfo)) (g : Graph)
+    (hplain : ∀ n ∈ g.nodes, Plain n) :
+    List.Sublist (visitGraph ctx (k + 1) (initialState g info) g).2.nodes g.nodes := by
+  obtain ⟨new, h1, h2⟩ := visitNodes_sublist ctx hnf (visitGraph ctx k)
+    (stepFuel g + 16 * (initialState g info).uses.length) g.nodes (initialState g info) [] [] hplain (initialState_sym g info).1
+  simp only [List.reverse_nil, List.nil_append] at h1
+  have : (visitGraph ctx (k + 1) (initialState g info) g).2.nodes = new := by
+    simp only [visitGraph]
+    split <;> exact h1
+  rw [this]
+  exact h2
 
 theorem foldGraph_fragment (sem : Sem V) (ctx : Ctx) (hnf : ctx.isFunction = false) (hor : OracleSound sem ctx)
     (info : List (Name × VInfo)) (g : Graph) (hwf : FragWF g)
